@@ -440,10 +440,14 @@ pub fn gen_case(seed: u64, idx: u64, corpus: &Corpus, prefixes: &[(usize, usize)
             }
             for i in 0..1 + rng.below(3) {
                 let j = rng.below(k);
-                match rng.below(4) {
+                match rng.below(7) {
                     0 => s.push_str(&format!("vg{i} G{j} ::= 1\n")),
                     1 => s.push_str(&format!("Sg{i} ::= SEQUENCE {{ m G{j} DEFAULT 1 }}\n")),
                     2 => s.push_str(&format!("vh{i} G{j} ::= vg0\n")),
+                    // the graph reached through a selection type, COMPONENTS OF, a contained subtype
+                    3 => s.push_str(&format!("Xg{i} ::= a < G{j}\n")),
+                    4 => s.push_str(&format!("Yg{i} ::= SEQUENCE {{ s a < G{j}, COMPONENTS OF G{} }}\n", rng.below(k))),
+                    5 => s.push_str(&format!("Zg{i} ::= INTEGER (INCLUDES G{j})\n")),
                     _ => s.push_str(&format!("Cg{i} ::= INTEGER (0..vg{j})\n")),
                 }
             }
@@ -577,6 +581,16 @@ pub fn worker(args: &[String]) -> ! {
             let t2 = vh::TICKS.load(Ordering::Relaxed);
             println!("HANG {cur} ticks={t1} ticks_after_1s={t2} depth={} max_depth={}", vh::DEPTH.load(Ordering::Relaxed), vh::MAX_DEPTH.load(Ordering::Relaxed));
             let _ = std::io::stdout().flush();
+            // sampling window: the driver takes stack samples of this process before it goes away; if the case returns in the
+            // meantime the answer is simply "slow" (the main thread moves on to the next case, this thread ends the process)
+            for _ in 0..16 {
+                std::thread::sleep(std::time::Duration::from_millis(500));
+                if CURRENT.load(Ordering::SeqCst) != cur {
+                    println!("HANG-RETURNED {cur}");
+                    let _ = std::io::stdout().flush();
+                    break;
+                }
+            }
             std::process::exit(99);
         }
     });
@@ -669,6 +683,36 @@ fn abort_key(case: &Case, tag: u64) -> String {
     }
 }
 
+/// Four gdb stack samples of the worker's main thread, 1.5 s apart. Returns the innermost compiler function if the chain of
+/// compiler frames (function names, outermost to innermost `rasn_compiler::` frame) is identical in all samples.
+fn stack_spin(pid: u32) -> Option<String> {
+    let mut chains: Vec<Vec<String>> = vec![];
+    for k in 0..4 {
+        if k > 0 {
+            std::thread::sleep(std::time::Duration::from_millis(1500));
+        }
+        let out = Command::new("gdb").args(["-p", &pid.to_string(), "-batch", "-nx", "-ex", "thread 1", "-ex", "bt 200"]).stdin(Stdio::null()).stdout(Stdio::piped()).stderr(Stdio::null()).output().ok()?;
+        let text = String::from_utf8_lossy(&out.stdout);
+        // frames `#N  [0x.. in] function (args) at file:line`, innermost first
+        let mut frames: Vec<String> = vec![];
+        for l in text.lines().filter(|l| l.starts_with('#')) {
+            let rest = l.splitn(2, char::is_whitespace).nth(1).unwrap_or("").trim();
+            let rest = rest.split_once(" in ").map(|x| x.1).unwrap_or(rest);
+            let f = rest.split(" (").next().unwrap_or("").trim().to_string();
+            frames.push(f);
+        }
+        let first = frames.iter().position(|f| f.starts_with("rasn_compiler::"))?;
+        let mut chain: Vec<String> = frames[first..].iter().filter(|f| f.starts_with("rasn_compiler::")).cloned().collect();
+        chain.reverse();
+        chains.push(chain);
+    }
+    let c0 = chains.first()?;
+    if c0.is_empty() || chains.iter().any(|c| c != c0) {
+        return None;
+    }
+    c0.last().map(|f| f.trim_start_matches("rasn_compiler::").to_string())
+}
+
 #[derive(Default)]
 struct ShardResult {
     rep: Report,
@@ -689,6 +733,8 @@ fn run_shard(seed: u64, mut start: u64, end: u64, nfiles: usize, corpus: &Corpus
         let stdout = child.stdout.take().unwrap();
         let mut open: Option<u64> = None; // call event without return event
         let mut hang_line: Option<String> = None;
+        let mut spin: Option<String> = None;
+        let mut returned_late = false;
         for line in BufReader::new(stdout).lines() {
             let Ok(line) = line else { break };
             let mut it = line.splitn(4, ' ');
@@ -732,7 +778,13 @@ fn run_shard(seed: u64, mut start: u64, end: u64, nfiles: usize, corpus: &Corpus
                         });
                     }
                 }
-                Some("HANG") => hang_line = Some(line.clone()),
+                Some("HANG") => {
+                    hang_line = Some(line.clone());
+                    // stack samples of the stuck worker (gdb, batch mode): a call chain inside the compiler that is the same in every
+                    // sample means the main thread neither calls nor returns - it spins inside one function
+                    spin = stack_spin(child.id());
+                }
+                Some("HANG-RETURNED") => returned_late = true,
                 _ => {}
             }
         }
@@ -764,6 +816,12 @@ fn run_shard(seed: u64, mut start: u64, end: u64, nfiles: usize, corpus: &Corpus
                         what: format!("no return after 10 s and linker steps {t2} (> budget {budget}, still increasing) on {} input {}", case.cat, case.origin),
                         replay: json!({"seed": seed, "idx": idx, "nfiles_prefix": nfiles, "category": case.cat, "input": one_line(&case.input, 4000), "hang": h}),
                     });
+                } else if let (Some(f), false) = (&spin, returned_late) {
+                    rep.violations.push(Violation {
+                        sig: format!("c08|hang|spinning-in|{f}"),
+                        what: format!("no return after 10 s on {} input ({} bytes) {}: four stack samples 1.5 s apart show the same call chain inside the compiler, innermost `{f}` - the main thread spins in that function", case.cat, case.input.len(), case.origin),
+                        replay: json!({"seed": seed, "idx": idx, "nfiles_prefix": nfiles, "category": case.cat, "input": one_line(&case.input, 4000), "hang": h, "spinning_in": f}),
+                    });
                 } else {
                     rep.inconclusive.push(format!("watchdog fired without step-budget excess: idx={idx} {} {h}", case.cat));
                 }
@@ -788,7 +846,7 @@ pub fn run(ctx: &Ctx) -> Report {
     );
     rep.must_observe = vec!["cases_with_error_or_warning_rendered".into()];
     rep.assumptions = vec![
-        "hang is decided on H3 linker steps (budget 64*(tokens+1)^2) sampled by an in-worker watchdog after 10 s; a watchdog firing below budget is inconclusive".into(),
+        "hang is decided on H3 linker steps (budget 64*(tokens+1)^2) sampled by an in-worker watchdog after 10 s, or on four gdb stack samples of the stuck worker taken 1.5 s apart: the same chain of compiler frames in every sample = the main thread spins inside one function; a watchdog firing with neither is inconclusive (slow, e.g. exponential backtracking, whose call chain keeps changing)".into(),
         "opt-level 1 with debug assertions and overflow checks (the profile build scripts / proc macros get)".into(),
     ];
     let corpus = load_corpus();
